@@ -43,6 +43,11 @@ type Val struct {
 	ParamFn string     // function-typed parameter of the root (name), if so
 }
 
+type namedVal struct {
+	v Val
+	t types.Type
+}
+
 type deferred struct {
 	guard string
 	call  *ssa.CallCommon
@@ -73,6 +78,7 @@ type Frame struct {
 	// root-only
 	contract *Contract
 	prefix   string
+	names      map[string]namedVal // source names of registers (from DebugRef)
 	extraBinds map[string]TV
 	panicking  bool // frame of a deferred function running while the caller unwinds
 	loopInfos map[*ssa.BasicBlock]*loopInfo
@@ -865,6 +871,13 @@ func (e *Eval) loopEnv(fr *Frame, ls *loopState, s *State, from *ssa.BasicBlock,
 
 // bindCells exposes un-lifted local variables (Alloc cells) by source name.
 func (e *Eval) bindCells(env *Env, fr *Frame) {
+	defer func() {
+		for n, nv := range fr.names {
+			if _, dup := env.vars[n]; !dup {
+				env.vars[n] = TV{T: nv.v.T, Ty: nv.t}
+			}
+		}
+	}()
 	for v, val := range fr.vals {
 		// local struct variables: the name denotes the object (auto-dereferenced)
 		if a, ok := v.(*ssa.Alloc); ok && a.Comment != "" && val.A == nil && val.T != "" {
